@@ -892,7 +892,10 @@ class QvmCpu:
                       expected=a.type,
                       got=b.type)
 
-        result = a.value // b.value
+        # integer division truncates toward zero
+        result = abs(a.value) // abs(b.value)
+        if (a.value < 0) != (b.value < 0):
+            result = -result
         self.push(a.type, result)
 
     def _exec_ijmp(self):
@@ -1059,7 +1062,10 @@ class QvmCpu:
                       expected=a.type,
                       got=b.type)
 
-        result = a.value % b.value
+        # the remainder takes the sign of the dividend
+        result = abs(a.value) % abs(b.value)
+        if a.value < 0:
+            result = -result
         self.push(a.type, result)
 
     def _exec_mul(self):
